@@ -114,6 +114,10 @@ pub fn zoom_arg(rng: &mut Rng, levels: &BTreeMap<u8, Vec<(u32, u32)>>) -> String
 /// random pipeline in reverse polish notation
 pub fn gen_pipe(rng: &mut Rng, depth: u32, nsrc: usize, levels: &BTreeMap<u8, Vec<(u32, u32)>>) -> String {
 	if depth == 0 || rng.chance(1, 5) {
+		// every 8th leaf is a from_debug source (vector tiles for every coordinate of the pyramid)
+		if rng.chance(1, 8) {
+			return if rng.chance(1, 2) { "D1".to_string() } else { "D1f".to_string() };
+		}
 		return format!("L{}", rng.below(nsrc as u64));
 	}
 	match rng.below(10) {
@@ -146,12 +150,16 @@ pub fn gen_sources(rng: &mut Rng, next: &mut u64, kmin: u64, kmax: u64, max_tile
 	let mut v = vec![];
 	for _ in 0..k {
 		let comp = rng.below(3) as u32;
-		let mut kinds = vec!["mem", "mem", "mem", "versatiles", "versatiles", "pmtiles", "tar", "dir"];
+		let mut kinds = vec!["mem", "mem", "mem", "versatiles", "versatiles", "vtx", "vtx", "pmtiles", "tar", "dir"];
 		if comp == 1 {
 			kinds.push("mbtiles");
 			kinds.push("mbtiles");
 		}
-		let kind = rng.pick(&kinds).to_string();
+		let mut kind = rng.pick(&kinds).to_string();
+		// every 6th source sits behind a TilesConvertReader (flip / swap), so that pipelines are stacked on converters
+		if rng.chance(1, 6) {
+			kind += *rng.pick(&["~10", "~01", "~11", "~00"]);
+		}
 		let p = rng.range(3, 9);
 		let drop_level = if levels.len() > 1 && rng.chance(1, 3) { Some(*rng.pick(&levels)) } else { None };
 		let mut coords: Vec<Key> = pool.iter().filter(|k| Some(k.0) != drop_level && rng.chance(p, 10)).copied().collect();
@@ -171,7 +179,7 @@ pub fn gen_sources(rng: &mut Rng, next: &mut u64, kmin: u64, kmax: u64, max_tile
 			let k = *rng.pick(&spec.tiles.keys().copied().collect::<Vec<_>>());
 			spec.tiles.insert(k, next_id_where(next, repetitive));
 		}
-		if spec.kind == "mbtiles" {
+		if base_kind(&spec.kind) == "mbtiles" {
 			// the mbtiles reader cannot open zoom gaps (separate defect, not C02's): keep one level
 			let z0 = spec.tiles.keys().next().unwrap().0;
 			spec.tiles.retain(|k, _| k.0 == z0);
@@ -281,7 +289,7 @@ pub fn run(args: &Args) {
 	let mut next: u64 = 0;
 
 	// ---------------- Part A: container readers and converter wrappers
-	let n_a = args.n(8, 33);
+	let n_a = args.n(10, 35);
 	for wi in 0..n_a {
 		let dense = wi == 0;
 		// world 1: "ocean" – every tile of levels 0..3 present, all byte-identical (< 1000 bytes)
@@ -290,11 +298,32 @@ pub fn run(args: &Args) {
 		// sub-boxes that skip tiles make gaps > 32 KiB between consecutive requested tiles → chunk splits.
 		// thorough, world 6: 70 tiles of 1 MiB in one block (> 64 MiB → split by size)
 		let big = wi == 2;
-		let huge = args.thorough() && wi == 8;
+		let huge = args.thorough() && wi == 10;
 		// world 6: empty (0 bytes) payloads, stored uncompressed (PNG so that mbtiles takes part); world 7: fault injection
 		let empties = wi == 6;
-		let faulty = wi == 7 || (wi > 8 && wi % 4 == 1);
-		let coords: Vec<Key> = if big {
+		let faulty = wi == 7 || (wi > 10 && wi % 4 == 1);
+		// world 8: 2x2 clusters whose skipped tile is exactly 32767 / 32768 / 32769 bytes (chunk gap threshold),
+		// stored uncompressed; world 9: extreme coordinates (levels 0, 30, 31; x, y in {0, 2^z-1})
+		let gaps = wi == 8;
+		let extreme = wi == 9;
+		let coords: Vec<Key> = if gaps {
+			let mut v = vec![];
+			for (z, x0, y0) in [(3u8, 1u32, 2u32), (4, 9, 3), (5, 20, 17)] {
+				for (dx, dy) in [(0, 0), (1, 0), (0, 1), (1, 1)] {
+					v.push((z, x0 + dx, y0 + dy));
+				}
+			}
+			v
+		} else if extreme {
+			let mut v = vec![(0u8, 0u32, 0u32)];
+			for z in [30u8, 31] {
+				let m = ((1u64 << z) - 1) as u32;
+				for (x, y) in [(0, 0), (m, 0), (0, m), (m, m), (m - 1, m), (1, 0), (255, 256), (256, 255), (m - 255, m - 256)] {
+					v.push((z, x, y));
+				}
+			}
+			v
+		} else if big {
 			let mut v = vec![];
 			for y in 5..9u32 {
 				for x in 3..7u32 {
@@ -339,11 +368,27 @@ pub fn run(args: &Args) {
 				gen_coords(&mut rng, 90, gaps)
 			}
 		};
-		let (fmt, comp) = if dense || big { (1, 1) } else if ocean || huge { (1, 0) } else if empties { (2, 0) } else { pick_fmt_comp(&mut rng) };
+		let (fmt, comp) = if gaps { (1, 0) } else if dense || big { (1, 1) } else if ocean || huge { (1, 0) } else if empties { (2, 0) } else { pick_fmt_comp(&mut rng) };
 		// payload identity pattern: see `assign_ids_style`
-		let style = if dense || big || huge { 0 } else if ocean { 1 } else if empties { 6 } else if wi < 6 { [0, 1, 0, 4, 2, 5][wi] } else { [0, 0, 0, 1, 2, 2, 3, 4, 4, 5, 6][rng.below(11) as usize] };
+		let style = if dense || big || huge || gaps { 0 } else if ocean { 1 } else if empties { 6 } else if wi < 6 { [0, 1, 0, 4, 2, 5][wi] } else { [0, 0, 0, 1, 2, 2, 3, 4, 4, 5, 6][rng.below(11) as usize] };
 		out.count(&format!("A_payload_style_{style}"));
-		let tiles = if big || huge {
+		let tiles = if gaps {
+			// per cluster: A (0,0), P (1,0) = the skipped tile of exact size, B (0,1), Q (1,1)
+			let mut t = BTreeMap::new();
+			for (ci, chunk) in coords.chunks(4).enumerate() {
+				let want = [1u64, 2, 3][ci % 3];
+				let pid = next_id_where(&mut next, match want { 1 => |i| size_target(i) == Some(32767), 2 => |i| size_target(i) == Some(32768), _ => |i| size_target(i) == Some(32769) });
+				next += 1;
+				t.insert(chunk[0], next);
+				t.insert(chunk[1], pid);
+				next += 1;
+				t.insert(chunk[2], next);
+				next += 1;
+				t.insert(chunk[3], next);
+			}
+			out.count("A_world_gap_threshold_32767_32768_32769");
+			t
+		} else if big || huge {
 			// distinct large payloads: ids that are multiples of 37 (60 KB) resp. 1009 (1 MiB)
 			let m = if huge { 1009 } else { 37 };
 			coords.iter().enumerate().map(|(i, k)| (*k, m * (1 + i as u64) * if huge { 1 } else { 1010 })).collect()
@@ -357,12 +402,15 @@ pub fn run(args: &Args) {
 		if huge {
 			out.count("A_world_huge_70x1MiB");
 		}
-		let mut kinds = vec!["mem", "versatiles", "pmtiles", "tar", "dir"];
+		let mut kinds = vec!["mem", "versatiles", "vtx", "pmtiles", "tar", "dir"];
 		if mbtiles_ok(fmt, comp) {
 			kinds.push("mbtiles");
 		}
 		if huge {
 			kinds = vec!["versatiles"];
+		}
+		if gaps {
+			kinds = vec!["versatiles", "mem"];
 		}
 		for kind in kinds {
 			// fault injection: the lookup fails for 1-4 coordinates that have a tile and one that has none
@@ -379,10 +427,18 @@ pub fn run(args: &Args) {
 				fail.dedup();
 				out.count("A_world_faulty");
 			}
-			let spec = SrcSpec { fmt, comp, kind: kind.to_string(), tiles: tiles.clone(), fail };
+			let mut tiles_k = tiles.clone();
+			if extreme && kind != "mem" {
+				// the writers walk the 256-blocks of the advertised level boxes: a source with tiles in all four corners
+				// of level 30/31 makes VersaTilesWriter collect 2^44 block boxes (observed: > 60 GB, killed) – an
+				// observation about the writers, outside C02; containers get one corner per level
+				tiles_k.retain(|k, _| (k.0 == 30 && k.1 <= 256 && k.2 <= 256) || (k.0 == 31 && k.1 > (1 << 30) && k.2 > (1 << 30)) || k.0 == 0);
+			}
+			let spec = SrcSpec { fmt, comp, kind: kind.to_string(), tiles: tiles_k, fail };
 			let specs = vec![spec];
 			let w = World::build(&rt, &scratch, &specs);
 			out.count(&format!("A_world_{kind}"));
+			if std::env::var("VTH_TRACE").is_ok() { eprintln!("A world {wi} {kind}"); }
 			if !w.usable() {
 				out.count(&format!("A_world_{kind}_unusable"));
 				out.notes.push(format!("world {wi} kind {kind}: {}", trunc(w.open_errors[0].as_deref().unwrap_or(""), 200)));
@@ -390,6 +446,19 @@ pub fn run(args: &Args) {
 				continue;
 			}
 			let levels = ask_levels(&mut rng, &specs);
+			if gaps {
+				let mut boxes = vec![];
+				for chunk in coords.chunks(4) {
+					let (z, x, y) = chunk[0];
+					for (a, b, c, d) in [(x, y, x, y + 1), (x + 1, y, x + 1, y + 1), (x, y, x + 1, y + 1), (x, y, x + 1, y), (x, y + 1, x + 1, y + 1), (x, y, x, y)] {
+						boxes.push(TileBBox::new(z, a, b, c, d).unwrap());
+					}
+				}
+				run_in_world(&rt, &mut out, &mut id, &w, "C02", "S", "L0", &boxes_arg(&boxes));
+				if kind == "versatiles" {
+					reader_line(&rt, &mut out, &mut id, &w, "C02v", "S", &boxes_arg(&boxes));
+				}
+			}
 			if big || huge {
 				// every sub-box of the tile region (big) / the full box, single columns and rows, cut boxes (huge)
 				let (z, x0, y0, x1, y1) = if big { (4u8, 3u32, 5u32, 6u32, 8u32) } else { (6u8, 20, 10, 29, 16) };
@@ -412,7 +481,7 @@ pub fn run(args: &Args) {
 					boxes.push(TileBBox::new(z, 21, 11, 27, 15).unwrap());
 				}
 				run_in_world(&rt, &mut out, &mut id, &w, "C02", "S", "L0", &boxes_arg(&boxes));
-				if kind == "versatiles" && big {
+				if (kind == "versatiles" || kind == "vtx") && big {
 					reader_line(&rt, &mut out, &mut id, &w, "C02v", "S", &boxes_arg(&boxes));
 				}
 				if kind == "versatiles" && huge {
@@ -425,18 +494,18 @@ pub fn run(args: &Args) {
 				}
 			}
 			for (z, present) in levels.iter() {
-				let boxes = gen_boxes(&mut rng, *z, present, if dense || ocean { 3 } else { 2 }, args.n(30, 60));
+				let boxes = gen_boxes(&mut rng, *z, present, if dense || ocean { 3 } else { 2 }, args.n(22, 60));
 				run_in_world(&rt, &mut out, &mut id, &w, "C02", "S", "L0", &boxes_arg(&boxes));
 				// the reader models on the real file's index / table
-				if kind == "versatiles" {
+				if kind == "versatiles" || kind == "vtx" {
 					reader_line(&rt, &mut out, &mut id, &w, "C02v", "S", &boxes_arg(&boxes));
 				} else if kind == "mbtiles" {
 					reader_line(&rt, &mut out, &mut id, &w, "C02m", "S", &boxes_arg(&boxes));
 				}
 			}
-			if kind == "versatiles" || kind == "mbtiles" {
+			if kind == "versatiles" || kind == "vtx" || kind == "mbtiles" {
 				let cs = coords_arg(&mut rng, &specs, 4);
-				reader_line(&rt, &mut out, &mut id, &w, if kind == "versatiles" { "C02v" } else { "C02m" }, "G", &cs);
+				reader_line(&rt, &mut out, &mut id, &w, if kind == "mbtiles" { "C02m" } else { "C02v" }, "G", &cs);
 			}
 			if faulty {
 				// the default stream under filters: errors stay dropped, nothing else is lost
@@ -447,6 +516,13 @@ pub fn run(args: &Args) {
 					run_in_world(&rt, &mut out, &mut id, &w, "C02", "S", "L0,Zn:n", &boxes_arg(&boxes));
 				}
 				run_in_world(&rt, &mut out, &mut id, &w, "C02", "G", "L0", &coords_arg(&mut rng, &specs, 2));
+			}
+			if !faulty && kind != "mem" {
+				// the same through the real PipelineReader (a .vpl file next to the container)
+				for (z, present) in levels.iter().take(2) {
+					let boxes = gen_boxes(&mut rng, *z, present, 1, 6);
+					run_in_world(&rt, &mut out, &mut id, &w, "C02", "V", &format!("L0,{}", zoom_arg(&mut rng, &levels)), &boxes_arg(&boxes));
+				}
 			}
 			// converter wrappers: all four flag pairs
 			for flags in ["00", "10", "01", "11"] {
@@ -460,7 +536,7 @@ pub fn run(args: &Args) {
 	}
 
 	// ---------------- Part B: generated pipelines
-	let n_b = args.n(14, 80);
+	let n_b = args.n(10, 80);
 	let max_depth = args.n(3, 5) as u32;
 	for _ in 0..n_b {
 		let specs = gen_sources(&mut rng, &mut next, 2, 4, 50);
@@ -477,13 +553,17 @@ pub fn run(args: &Args) {
 			let depth = rng.range(1, max_depth as u64) as u32;
 			let rpn = gen_pipe(&mut rng, depth, specs.len(), &levels);
 			out.count(&format!("B_pipe_depth_{depth}"));
-			for h in ["Z", "B", "O", "M", "U"] {
+			for h in ["Z", "B", "O", "M", "U", "D"] {
 				if rpn.split(',').any(|t| t.starts_with(h)) {
 					out.count(&format!("B_pipe_has_{h}"));
 				}
 			}
 			run_in_world(&rt, &mut out, &mut id, &w, "C02", "P", &rpn, "");
 			run_in_world(&rt, &mut out, &mut id, &w, "C02", "G", &rpn, &coords_arg(&mut rng, &specs, 4));
+			if let Some((z, present)) = levels.iter().next() {
+				let boxes = gen_boxes(&mut rng, *z, present, 0, 5);
+				run_in_world(&rt, &mut out, &mut id, &w, "C02", "V", &rpn, &boxes_arg(&boxes));
+			}
 			for (z, present) in levels.iter() {
 				let boxes = gen_boxes(&mut rng, *z, present, 1, args.n(14, 30));
 				run_in_world(&rt, &mut out, &mut id, &w, "C02", "S", &rpn, &boxes_arg(&boxes));
@@ -491,6 +571,85 @@ pub fn run(args: &Args) {
 		}
 		w.cleanup();
 	}
+	// ---------------- Part C: every operation x every operation, nested two (quick) and three (thorough) deep, over a
+	// world whose tiles are spread over several 32x32 sub-boxes and a 256-block border; boxes of width / height
+	// 31, 32, 33, 63, 64, 65 at offsets = 0, 1, 31 (mod 32)
+	{
+		let mut specs = vec![];
+		let kinds = ["mem", "versatiles", "vtx~11", "pmtiles"];
+		for (i, kind) in kinds.iter().enumerate() {
+			let mut coords: Vec<Key> = vec![];
+			for _ in 0..45 {
+				coords.push((9u8, 200 + rng.below(100) as u32, 210 + rng.below(100) as u32));
+			}
+			for _ in 0..6 {
+				coords.push((2u8, rng.below(4) as u32, rng.below(4) as u32));
+			}
+			coords.sort();
+			coords.dedup();
+			let style = [0u64, 2, 0, 3][i];
+			specs.push(SrcSpec { fmt: 1, comp: [0u32, 1, 2, 1][i], kind: kind.to_string(), tiles: assign_ids_style(&mut rng, &coords, &mut next, style), fail: vec![] });
+		}
+		let w = World::build(&rt, &scratch, &specs);
+		out.count("C_world");
+		if w.usable() {
+			let levels = levels_of(&specs);
+			let mut grid_boxes = vec![];
+			for (off, len) in [(224u32, 31u32), (224, 32), (224, 33), (225, 32), (225, 63), (255, 32), (255, 33), (224, 64), (224, 65), (225, 64), (255, 65), (256, 31)] {
+				grid_boxes.push(TileBBox::new(9, off, off + 1, off + len - 1, off + len).unwrap());
+				grid_boxes.push(TileBBox::new(9, off, 230, off + len - 1, 232).unwrap());
+			}
+			let small = vec![TileBBox::new(2, 0, 0, 3, 3).unwrap(), TileBBox::new(2, 1, 1, 2, 3).unwrap(), TileBBox::new(9, 250, 250, 262, 262).unwrap()];
+			let unary: Vec<String> = vec!["Z2:9".into(), "Z9:2".into(), "Zn:5".into(), geo_arg(&mut rng, &levels), format!("B{}:{}:{}:{}", (-180.0f64).to_bits(), (-90.0f64).to_bits(), 180.0f64.to_bits(), 90.0f64.to_bits()), "U".into()];
+			let bases: Vec<String> = vec!["L0".into(), "L2".into(), "D1".into(), "L0,L1,O2".into(), "L1,L2,L3,O3".into(), "L0,L3,M2".into(), "L2,D1,O2".into(), "L0,L0,O2".into(), "L1,L1,M2".into()];
+			let mut pipes: Vec<String> = vec![];
+			for b in bases.iter() {
+				pipes.push(b.clone());
+				for u in unary.iter() {
+					pipes.push(format!("{b},{u}"));
+					if args.thorough() {
+						for u2 in unary.iter() {
+							pipes.push(format!("{b},{u},{u2}"));
+						}
+					}
+				}
+			}
+			for u in unary.iter() {
+				for t in ["O2", "M2"] {
+					pipes.push(format!("L0,{u},L1,{t}"));
+					pipes.push(format!("L0,{u},L2,{u},{t},{u}"));
+					pipes.push(format!("L0,L1,{t},{u},L3,O2"));
+				}
+			}
+			for t in ["O2", "M2"] {
+				for t2 in ["O2", "M2"] {
+					pipes.push(format!("L0,L1,{t},L2,L3,{t},{t2}"));
+				}
+			}
+			let cs = coords_arg(&mut rng, &specs, 2);
+			for (pi, rpn) in pipes.iter().enumerate() {
+				out.count("C_pipe_systematic");
+				run_in_world(&rt, &mut out, &mut id, &w, "C02", "P", rpn, "");
+				run_in_world(&rt, &mut out, &mut id, &w, "C02", "S", rpn, &boxes_arg(&small));
+				if pi % 4 == 0 {
+					run_in_world(&rt, &mut out, &mut id, &w, "C02", "G", rpn, &cs);
+				}
+			}
+			for rpn in ["L0,L1,O2", "L1,L2,L3,O3", "L0,L3,M2", "L0,L1,L2,L3,O4", "L1", "L2"] {
+				out.count("C_pipe_grid_boxes");
+				run_in_world(&rt, &mut out, &mut id, &w, "C02", "S", rpn, &boxes_arg(&grid_boxes));
+			}
+			// image formats of from_debug (PNG/JPG/WEBP encoders): a few tiles only
+			for d in ["D2", "D2f", "D3", "D4"] {
+				run_in_world(&rt, &mut out, &mut id, &w, "C02", "S", d, "1:0,0,1,0;31:5,5,5,5;3:1,1,0,0");
+				run_in_world(&rt, &mut out, &mut id, &w, "C02", "P", d, "");
+			}
+		} else {
+			out.notes.push(format!("part C world unusable: {:?}", w.open_errors));
+		}
+		w.cleanup();
+	}
+	out.notes.push("checklist: (2) undecodable payloads and files truncated/replaced after open are outside C02's statement (it quantifies over working sources); lookup errors after open are covered by FaultySource. A faulty leaf under from_overlayed / from_vectortiles_merged makes the lookup Err while the stream falls through to / merges the other sources: an observation, not a finding (lookups there do not return a tile). (6) concurrency 1 vs > window of the parallel stream stages is C14's subject (num_cpus); here: several streams at once on one source object, boxes larger than the window, straggler sources. (7) HTTP: n.a. (9) containers written by the independent versatiles encoder (kind vtx: blob order row-major / random / reverse / column-major, shared offsets of any size, gaps up to 40 KB, padded ranges, empty blocks) take part in parts A, B, C; independent pmtiles/mbtiles encoders are C16's.".to_string());
 	for _ in 0..args.n(6, 30) {
 		probe_merge_layers(&rt, &mut out, &mut rng);
 	}
